@@ -48,7 +48,8 @@ struct Rng {
 		uint64_t a = seed * 0x9E3779B97F4A7C15ULL + 0x1234567ULL;
 		uint64_t t = splitmix64(a) ^ hash_str(stream);
 		uint64_t b = t + n * 0xD1342543DE82EF95ULL;
-		s = splitmix64(b) ^ splitmix64(t);
+		uint64_t x = splitmix64(b), y = splitmix64(t);
+		s = n == 0 ? ~x : x ^ y; // (for n == 0 the two values coincide: without the special case the state of case 0 would be 0 for every seed and stream)
 	}
 	uint64_t u64() { return splitmix64(s); }
 	// uniform integer in [0,n)
